@@ -25,6 +25,7 @@ import pyteal as pt
 from ..avm.engine import HarnessError
 
 _T = {"u": pt.TealType.uint64, "b": pt.TealType.bytes, "a": pt.TealType.anytype, "n": pt.TealType.none}
+# (for subroutines, ret "a" means an ABIReturnSubroutine with an abi.Uint64 output)
 
 _TXN_FIELD_BY_NAME = {f.arg_name: f for f in pt.TxnField}
 _GLOBAL_BY_NAME = {f.arg_name: f for f in pt.GlobalField}
@@ -67,12 +68,22 @@ class Builder:
                 env[p[1]] = a
             return builder.b(sd["body"], env)
 
-        ann = {"val": "Expr", "ref": "ScratchVar"}
+        ann = {"val": "Expr", "ref": "ScratchVar", "abi": "AbiU64"}
         plist = ", ".join("%s: %s" % (p[1], ann[p[0]]) for p in params)
         alist = ", ".join(p[1] for p in params)
         pyname = sd.get("pyname") or name
+        g = {"Expr": pt.Expr, "ScratchVar": pt.ScratchVar, "AbiU64": pt.abi.Uint64, "__body": body_fn}
+        if sd["ret"] == "a":
+            # ABIReturnSubroutine with an abi.Uint64 output: the recipe body is a uint64-valued expression
+            def body_out(*args, output=None):
+                return output.set(body_fn(*args))
+            g["__body"] = body_out
+            src = "def %s(%s*, output: AbiU64) -> Expr:\n    return __body(%soutput=output)\n" % (
+                pyname, (plist + ", ") if plist else "", (alist + ", ") if alist else "")
+            exec(src, g)
+            self.subs[name] = pt.ABIReturnSubroutine(g[pyname])
+            return
         src = "def %s(%s) -> Expr:\n    return __body(%s)\n" % (pyname, plist, alist)
-        g = {"Expr": pt.Expr, "ScratchVar": pt.ScratchVar, "__body": body_fn}
         exec(src, g)
         fn = g[pyname]
         if sd.get("name") is not None:
@@ -178,7 +189,10 @@ class Builder:
         return self.vars[e[1]].index()
 
     def b_Param(self, e, env):
-        return env[e[1]]
+        v = env[e[1]]
+        if isinstance(v, pt.abi.BaseType):
+            return v.get()
+        return v
 
     def b_PLoad(self, e, env):
         return env[e[1]].load()
@@ -298,6 +312,7 @@ class Builder:
     def b_Call(self, e, env):
         sd = self.rec["subs"][e[1]]
         args = []
+        pre = []
         for p, a in zip(sd["params"], e[2:]):
             if p[0] == "ref":
                 if a[0] == "Ref":
@@ -306,9 +321,19 @@ class Builder:
                     args.append(env[a[1]])
                 else:
                     raise HarnessError("by-ref argument must be ('Ref', var)")
+            elif p[0] == "abi":
+                x = pt.abi.Uint64()
+                pre.append(x.set(self.b(a, env)))
+                args.append(x)
             else:
                 args.append(self.b(a, env))
-        return self.subs[e[1]](*args)
+        call = self.subs[e[1]](*args)
+        if sd["ret"] == "a":
+            tmp = pt.abi.Uint64()
+            call = pt.Seq(call.store_into(tmp), tmp.get())
+        if pre:
+            return pt.Seq(*pre, call)
+        return call
 
 
 def _txn_getter(obj, fieldname: str):
@@ -338,10 +363,20 @@ def compile_recipe(rec: Dict[str, Any], version: int, optimize: Optional[Dict[st
                    assemble_constants: bool = False) -> str:
     """recipe -> TEAL text with the real compiler (public entry point)."""
     reset_pyteal_state()
-    b = Builder(rec)
-    ast = b.main()
-    mode = pt.Mode.Application if rec.get("mode", "A") == "A" else pt.Mode.Signature
-    kw = {}
-    if optimize is not None:
-        kw["optimize"] = pt.OptimizeOptions(**optimize)
-    return pt.compileTeal(ast, mode, version=version, assembleConstants=assemble_constants, **kw)
+    import sys
+    saved = sys.getrecursionlimit()
+    if any(sd.get("ret") == "a" for sd in rec.get("subs", {}).values()):
+        # a recursive ABIReturnSubroutine is evaluated re-entrantly by ReturnedValue.store_into until Python's
+        # recursion limit stops it (pyteal/ast/abi/type.py "HANG NOTE"); with the raised limit the workers use
+        # for long programs that takes minutes, so these recipes are built under the interpreter's default limit
+        sys.setrecursionlimit(1000)
+    try:
+        b = Builder(rec)
+        ast = b.main()
+        mode = pt.Mode.Application if rec.get("mode", "A") == "A" else pt.Mode.Signature
+        kw = {}
+        if optimize is not None:
+            kw["optimize"] = pt.OptimizeOptions(**optimize)
+        return pt.compileTeal(ast, mode, version=version, assembleConstants=assemble_constants, **kw)
+    finally:
+        sys.setrecursionlimit(saved)
